@@ -56,17 +56,71 @@ def model_dict(m, terms):
     return out
 
 
-def discharge(ob, timeout_s=10, both=False, dump_failed=True):
+def _symbols(e, memo):
+    """names of the uninterpreted constants / functions occurring in e"""
+    out = set()
+    stack = [e]
+    seen = set()
+    while stack:
+        x = stack.pop()
+        k = x.get_id()
+        if k in seen:
+            continue
+        seen.add(k)
+        if k in memo:
+            out |= memo[k]
+            continue
+        if z3.is_quantifier(x):
+            stack.append(x.body())
+            continue
+        if z3.is_app(x):
+            if x.decl().kind() == z3.Z3_OP_UNINTERPRETED:
+                out.add(x.decl().name())
+            stack.extend(x.children())
+    memo[e.get_id()] = out
+    return out
+
+
+def relevant(assumptions, goal, hops):
+    """hypothesis selection (sound: a subset of the hypotheses): every quantifier-free assumption, and the quantified ones that share a symbol with the goal within `hops` steps"""
+    memo = {}
+    from .symex import has_quantifier
+    sym = [(a, _symbols(a, memo), has_quantifier(a)) for a in assumptions]
+    S = set(_symbols(goal, memo))
+    chosen = [False] * len(sym)
+    for _ in range(hops):
+        add = set()
+        for k, (a, sa, q) in enumerate(sym):
+            if not chosen[k] and (not q or sa & S):
+                chosen[k] = True
+                if q:
+                    add |= sa
+        S |= add
+    return [a for k, (a, _, _) in enumerate(sym) if chosen[k]]
+
+
+def discharge(ob, timeout_s=10, both=False, dump_failed=True, retry=True):
     t0 = time.time()
-    s = z3.Solver()
-    s.set('timeout', int(timeout_s * 1000))
-    s.add(*ob.assumptions)
-    s.add(z3.Not(ob.goal))
-    r = str(s.check())
+    r = None
     backend = 'z3 ' + z3.get_version_string()
+    if getattr(ob, 'focus', None) is not None and len(ob.focus) < len(ob.assumptions):
+        # the side-car named the hypotheses this obligation uses: try them alone first (a subset of the hypotheses: sound)
+        s = z3.Solver()
+        s.set('timeout', int(timeout_s * 1000))
+        s.add(*ob.focus)
+        s.add(z3.Not(ob.goal))
+        if str(s.check()) == 'unsat':
+            r = 'unsat'
+            backend += ' (declared hypotheses, %d of %d)' % (len(ob.focus), len(ob.assumptions))
+    if r is None:
+        s = z3.Solver()
+        s.set('timeout', int(timeout_s * 1000))
+        s.add(*ob.assumptions)
+        s.add(z3.Not(ob.goal))
+        r = str(s.check())
     if r == 'unknown':
         # quantifier instantiation is heuristic: retry with other seeds before giving the query to cvc5
-        for seed in (7, 42, 1234):
+        for seed in ((7, 42, 1234) if retry else ()):
             s2 = z3.Solver()
             s2.set('timeout', int(timeout_s * 1000))
             s2.set('random_seed', seed)
@@ -78,6 +132,20 @@ def discharge(ob, timeout_s=10, both=False, dump_failed=True):
                 r, s = r2, s2
                 backend += ' (seed %d)' % seed
                 break
+    if r == 'unknown' and retry:
+        # large contexts (many quantified invariants) defeat instantiation heuristics: retry with the hypotheses relevant to the goal only
+        for hops in (1, 2):
+            sub = relevant(ob.assumptions, ob.goal, hops)
+            if len(sub) == len(ob.assumptions):
+                break
+            s3 = z3.Solver()
+            s3.set('timeout', int(timeout_s * 1000))
+            s3.add(*sub)
+            s3.add(z3.Not(ob.goal))
+            if str(s3.check()) == 'unsat':
+                r, s = 'unsat', s3
+                backend += ' (hypothesis selection, %d of %d, %d hop)' % (len(sub), len(ob.assumptions), hops)
+                break
     model = None
     size = sum(len(a.sexpr()) for a in ob.assumptions[-3:]) if False else len(ob.assumptions)
     smt2 = None
@@ -85,7 +153,7 @@ def discharge(ob, timeout_s=10, both=False, dump_failed=True):
         m = s.model()
         model = model_dict(m, ob.model_terms)
         model['_raw'] = str(m)[:4000]
-    if r == 'unknown' or (both and r == 'unsat'):
+    if (r == 'unknown' and retry) or (both and r == 'unsat'):
         text = to_smt2(ob.assumptions, ob.goal)
         r2 = run_cvc5(text, timeout_s)
         if r == 'unknown' and r2 in ('sat', 'unsat'):
